@@ -320,6 +320,17 @@ func RunC19(s C19Scenario) *simcheck.RunInfo {
 			}
 		}
 	}
+	if s.Cluster != "" {
+		// in clustered mode every ALTER must run ON CLUSTER: without the clause it changes one node only
+		for _, e := range log {
+			if e.Class == "alter" && e.Applied && !strings.Contains(strings.ToUpper(e.SQL), "ON CLUSTER") {
+				ri.Violations = append(ri.Violations, &simcheck.Violation{Property: "C19", Oracle: "alter-on-one-node-only",
+					Signature: fmt.Sprintf("clustered mode, no ON CLUSTER: %.70s", e.SQL),
+					Detail:    "in clustered mode the statement " + e.SQL + " carries no ON CLUSTER clause: the retention of the other nodes stays as it was"})
+				break
+			}
+		}
+	}
 	outcome := "converged"
 	if len(ri.Violations) > 0 {
 		outcome = "violated"
